@@ -611,3 +611,24 @@ def send_sites_deep(fb, b, msg_pat=None, variant=None, depth=2):
         if any(sends(x, msg_pat, variant) for x in region(fb, t, depth)):
             out.append((s, 'via ' + t.name.split('::')[-1]))
     return out
+
+
+def loop_can_skip(b, site_bb):
+    """the block lies in a `for` / `while let Some(..) = it.next()` loop and an iteration of the INNERMOST such loop can come back to the loop
+    head without passing it (a `continue` / an `if` around it - also one whose condition is a disjunction and therefore has no single guarding
+    edge). -> (in_loop, can_skip)"""
+    heads = [x for x in b.calls(r'Iterator>::next$|Iterator::next$')]
+    cands = [h for h in heads if site_bb in cfg.reach_from(b, [h.bb]) and h.bb in cfg.reach_from(b, [site_bb])]
+    best = None
+    for h in cands:
+        # innermost: the site gets back to this head without going through any other candidate head
+        if all(h.bb in cfg.reach_from(b, [site_bb], blocked_blocks={g.bb}) for g in cands if g is not h):
+            best = (h, 0)
+            break
+    if best is None:
+        return (False, False)
+    h = best[0]
+    for (s0, d0, lab0) in option_edges(b, [h], 'Some'):
+        if d0 != site_bb and h.bb in cfg.reach_from(b, [d0], blocked_blocks={site_bb}):
+            return (True, True)
+    return (True, False)
